@@ -2,7 +2,9 @@ package filesys
 
 import (
 	"fmt"
+	"os"
 	"path"
+	"sync/atomic"
 
 	"github.com/pkg/errors"
 	"golang.org/x/sys/unix"
@@ -83,8 +85,12 @@ func (fs DirFs) Delete(dir, fname string) {
 	}
 }
 
+// tmpCounter distinguishes the temporary files of concurrent AtomicCreate calls
+var tmpCounter uint64
+
 func (fs DirFs) AtomicCreate(dir, fname string, data []byte) {
-	tmpFile := path.Join(dir, fname+".tmp")
+	tmpFile := path.Join(dir, fmt.Sprintf("%s.%d.%d.tmp", fname,
+		os.Getpid(), atomic.AddUint64(&tmpCounter, 1)))
 	fd, err := unix.Openat(fs.rootFd, tmpFile,
 		unix.O_CREAT|unix.O_TRUNC|unix.O_WRONLY, 0644)
 	if err != nil {
